@@ -376,7 +376,9 @@ func onlyVia(fn *ssa.Function, target *ssa.BasicBlock, p func(Fact) bool) bool {
 func returnsOf(fn *ssa.Function) []*ssa.Return {
 	var out []*ssa.Return
 	for _, b := range fn.Blocks {
-		if len(b.Instrs) == 0 {
+		if len(b.Instrs) == 0 || b == fn.Recover {
+			// the recover block is reached only after a recovered panic; functions with a defer but
+			// without recover() never take it
 			continue
 		}
 		if r, ok := b.Instrs[len(b.Instrs)-1].(*ssa.Return); ok {
